@@ -37,6 +37,7 @@ import Mathlib.Algebra.BigOperators.Fin
 import SpectraVerif.Proofs.C10FactorDefs
 import SpectraVerif.Proofs.C10Factor
 import SpectraVerif.Proofs.C10SolveCorrect
+import SpectraVerif.Proofs.C10History
 
 namespace C10
 open Gen.BK BKLDLT
@@ -487,6 +488,95 @@ example : letI : Sc ℚ := scOfField ⟨id, fun x _ => x, 1, 1⟩
     (compute (α := ℚ) #[0, 1, 2, 1, 0, 3, 2, 3, 1] false 3 1 0 (64/100)).info = Successful ∧
     (compute (α := ℚ) #[0, 1, 2, 1, 0, 3, 2, 3, 1] false 3 1 0 (64/100)).s.perm.toList.any (· < 0) = true := by
   decide +kernel
+
+/-! ### (9) object reuse: histories on one `BKLDLT` object and on one `DenseSymShiftSolve` object -/
+
+section history
+open BKLDLTC (Cx)
+
+/-- `copy_data` writes every packed entry before anything reads it: two entry states that differ only in the CONTENTS of the packed
+    array (`Agree 0`: same `n`, `m_perm`, access flag and array size) give the same state — real and complex model, both storage
+    orders, both triangles, every size.  This is why `m_data.resize` without clearing is harmless. -/
+theorem c10_copy_overwrites {α : Type} [Add α] [Sub α] [Mul α] [Div α] [Neg α] [Sc α] {β : Type} [Add β] [Sub β] [Mul β] [Div β] [Neg β] [Sc β]
+    (rowMajor : Bool) (uplo : Int) :
+    (∀ (s t : St α) (src : Array α) (shift : α), 0 ≤ s.n → s.data.size = (packedSize s.n).toNat → Agree 0 s t →
+      copy_data s src rowMajor uplo shift = copy_data t src rowMajor uplo shift) ∧
+    (∀ (s t : St (Cx β)) (src : Array (Cx β)) (shift : β), 0 ≤ s.n → s.data.size = (packedSize s.n).toNat → Agree 0 s t →
+      BKLDLTC.copy_data s src rowMajor uplo shift = BKLDLTC.copy_data t src rowMajor uplo shift) :=
+  ⟨fun s t src shift hn hsz h => copy_data_overwrites s t src rowMajor uplo shift hn hsz h,
+   fun s t src shift hn hsz h => BKLDLTC.copy_data_overwrites s t src rowMajor uplo shift hn hsz h⟩
+
+/-- `compute()` does not depend on the object's previous state.  `computeFrom prev` is the model of `compute` called on an object
+    whose members are `prev` — ANY state, so the result of any earlier history of `compute`/`solve` calls, of any size, successful or
+    failed — with the members reset as BKLDLT.h resets them (`m_n`, `m_perm` (all entries), `m_permc`, `m_info` overwritten; `m_data`
+    only resized, stale contents kept; `enterSt`).  Its result — packed array, `m_perm`, compressed permutation, `info()`, access flag —
+    EQUALS that of `compute` on a freshly constructed object, for the real and the complex Hermitian model, every size `n ≥ 0`, every
+    input, every scalar type and `Sc` instance.  (A `compute` that keeps `m_perm` across calls is a different function: the
+    correspondence runs the same histories on the real class, see harness/c10.cpp `hist` lines.) -/
+theorem c10_compute_history_independent {α : Type} [Add α] [Sub α] [Mul α] [Div α] [Neg α] [Sc α] {β : Type} [Add β] [Sub β] [Mul β] [Div β] [Neg β] [Sc β]
+    (n : Int) (hn : 0 ≤ n) :
+    (∀ (prev : Fact α) (src : Array α) (rowMajor : Bool) (uplo : Int) (shift alpha : α),
+      computeFrom prev src rowMajor n uplo shift alpha = compute src rowMajor n uplo shift alpha) ∧
+    (∀ (prev : Fact (Cx β)) (src : Array (Cx β)) (rowMajor : Bool) (uplo : Int) (shift alpha : β),
+      BKLDLTC.computeFrom prev src rowMajor n uplo shift alpha = BKLDLTC.compute src rowMajor n uplo shift alpha) :=
+  ⟨fun prev src rm uplo shift alpha => computeFrom_eq prev src rm n uplo shift alpha hn,
+   fun prev src rm uplo shift alpha => BKLDLTC.computeFrom_eq prev src rm n uplo shift alpha hn⟩
+
+/-- Which members `compute` resets, read from the header on every run (`Gen.BK.compute_prologue*`, translator target in
+    xlate/tgt_c10.py): before the pivot loop it assigns `m_n`, calls `m_perm.setLinSpaced(m_n, 0, m_n - 1)`, `m_permc.clear()`,
+    `m_data.resize(..)`, `compute_pointer()`, `copy_data(..)` and assigns `m_info` — in this order and ALL unconditionally: no member
+    write before the loop is nested under a condition.  This is the entry state `enterSt` of the model (`m_perm` = identity on all
+    `n` positions, whatever it held before), so `c10_compute_history_independent` speaks about the reset the code performs.
+    (A reset moved into an "only when the size changed" block empties the first list and fills the second.) -/
+theorem c10_compute_resets {α : Type} [Sub α] [Sc α] (prev : St α) (n : Int) :
+    compute_prologue = [("m_n", "="), ("m_perm", "setLinSpaced"), ("m_permc", "clear"), ("m_data", "resize"),
+      ("this", "compute_pointer"), ("this", "copy_data"), ("m_info", "=")] ∧
+    compute_prologue_conditional = [] ∧ compute_perm_reset_args = "m_n, 0, m_n - 1" ∧
+    (enterSt prev n).n = n ∧ (enterSt prev n).perm.size = n.toNat ∧
+    (∀ i : Nat, i < n.toNat → (enterSt prev n).perm.getD i 0 = (i : Int)) ∧ (enterSt prev n).data.size = (packedSize n).toNat := by
+  refine ⟨by decide, by decide, by decide, rfl, by simp [enterSt, linSpaced], fun i hi => ?_, (enterSt_sized prev n).2⟩
+  simp [enterSt, linSpaced, hi]
+
+/-- hence along every history `compute(A₁,…); …; compute(A_k,…)` on ONE object the members after the last call are those of a fresh
+    object given the last arguments alone -/
+theorem c10_history_last {α : Type} [Add α] [Sub α] [Mul α] [Div α] [Neg α] [Sc α]
+    (reqs : List (Array α × Bool × Int × Int × α)) (last : Array α × Bool × Int × Int × α) (alpha : α) (s0 : Fact α) (hn : 0 ≤ last.2.2.1) :
+    (reqs ++ [last]).foldl (fun s r => computeFrom s r.1 r.2.1 r.2.2.1 r.2.2.2.1 r.2.2.2.2 alpha) s0 =
+      compute last.1 last.2.1 last.2.2.1 last.2.2.2.1 last.2.2.2.2 alpha := by
+  rw [List.foldl_append]
+  exact computeFrom_eq _ _ _ _ _ _ _ hn
+
+/-- the stale contents are really there in the model (the statement above is not about a model that clears the array):
+    with an unchanged size `compute` starts from the previous packed array -/
+example {α : Type} [Sc α] (prev : St α) (n : Int) (h : prev.data.size = (packedSize n).toNat) : (enterSt prev n).data = prev.data := by
+  simp [enterSt, resizeData, h]
+
+/-- `DenseSymShiftSolve` histories: on a wrapper object in ANY state (after any sequence of `set_shift` calls, successful or not),
+    `set_shift(sigma)` (i) has the outcome given by `sigma` and the matrix alone — it throws `std::invalid_argument` exactly when the
+    factorization of `A − sigma·I` on a fresh object does not report `Successful`, so there is no memory of earlier attempts —,
+    (ii) leaves `m_solver` holding exactly that factorization (so `perform_op` is `solve` of it: `c10_solve_correct_partial` applies),
+    and (iii) asking again with the same `sigma` gives the same outcome (a failed shift throws every time: retry, or the
+    `SymEigsShiftSolver` constructor called with that shift). -/
+theorem c10_wrapper_history_independent {α : Type} [Add α] [Sub α] [Mul α] [Div α] [Neg α] [Sc α] (w : DenseShift α) (sigma alpha : α) (hn : 0 ≤ w.n) :
+    (w.set_shift sigma alpha).1 = dense_set_shift_guard (compute w.mat w.rowMajor w.n w.uplo sigma alpha).info ∧
+    ((w.set_shift sigma alpha).1 = Res.throw "std::invalid_argument" ↔ (compute w.mat w.rowMajor w.n w.uplo sigma alpha).info ≠ Successful) ∧
+    ((w.set_shift sigma alpha).1 = Res.ok () ↔ (compute w.mat w.rowMajor w.n w.uplo sigma alpha).info = Successful) ∧
+    (w.set_shift sigma alpha).2.solver = compute w.mat w.rowMajor w.n w.uplo sigma alpha ∧
+    (∀ x, (w.set_shift sigma alpha).2.perform_op x = solve (compute w.mat w.rowMajor w.n w.uplo sigma alpha) x) ∧
+    ((w.set_shift sigma alpha).2.set_shift sigma alpha).1 = (w.set_shift sigma alpha).1 := by
+  have e : ∀ w' : DenseShift α, w'.n = w.n → w'.mat = w.mat → w'.rowMajor = w.rowMajor → w'.uplo = w.uplo →
+      w'.set_shift sigma alpha = (dense_set_shift_guard (compute w.mat w.rowMajor w.n w.uplo sigma alpha).info,
+        { w' with solver := compute w.mat w.rowMajor w.n w.uplo sigma alpha }) := by
+    intro w' h1 h2 h3 h4
+    unfold DenseShift.set_shift
+    rw [computeFrom_eq _ _ _ _ _ _ _ (by rw [h1]; exact hn), h1, h2, h3, h4]
+  have e1 := e w rfl rfl rfl rfl
+  have g := C10S.wrapper_guards (compute w.mat w.rowMajor w.n w.uplo sigma alpha).info
+  refine ⟨by rw [e1], by rw [e1]; exact g.1, by rw [e1]; exact g.2.1, by rw [e1], fun x => by rw [e1]; rfl, ?_⟩
+  rw [e1]
+  exact congrArg Prod.fst (e _ rfl rfl rfl rfl)
+
+end history
 
 /-! ### non-vacuity -/
 /-- the zero-diagonal block `[0 1; 1 0]` meets the hypothesis of `c10_solve2_ordered` (second branch: rows exchanged) -/
